@@ -1,0 +1,12 @@
+//go:build verif
+// +build verif
+
+package livesql
+
+import "github.com/samsarahq/thunder/sqlgen"
+
+// VerifParseBinlogRow exposes parseBinlogRow: source[i] is the position in binlogRow of the i-th
+// struct column (-1 = absent), expected the number of columns MySQL reports for the table.
+func VerifParseBinlogRow(table *sqlgen.Table, binlogRow []interface{}, expected int, source []int) (interface{}, error) {
+	return parseBinlogRow(table, binlogRow, &columnMap{expectedColumns: expected, source: source})
+}
